@@ -19,7 +19,7 @@ open YaegiVerif.Expected.C06 (facts)
 @[simp] theorem facts_panicBoxed : facts.panicBoxed = false := rfl
 @[simp] theorem facts_panicDeferrable : facts.panicDeferrable = true := rfl
 @[simp] theorem facts_closureAncIsClone : facts.closureAncIsClone = true := rfl
-@[simp] theorem facts_closureLocksDefiner : facts.closureLocksDefiner = true := rfl
+@[simp] theorem facts_closureLocksDefiner : facts.closureLocksDefiner = false := rfl
 @[simp] theorem facts_executeRecovers : facts.executeRecovers = true := rfl
 @[simp] theorem facts_executeCarriesValue : facts.executeCarriesValue = true := rfl
 @[simp] theorem facts_exitSteps :
@@ -234,28 +234,29 @@ def finS (r : Sig × Option Val × Int × World) : Sig × Int × World :=
   (Spec.finish r.1 r.2.1, r.2.2.1, r.2.2.2)
 
 /-- the loop over f.deferred against the specification's LIFO run: every entry is called exactly once, in
-    order; a panic raised by an entry becomes the current panic of the frame and the loop goes on -/
+    order; a panic raised by an entry becomes the current panic of the frame and the loop goes on (whether or
+    not the frame is locked: the wrapper of a held literal does not touch the defining frame any more) -/
 theorem entries_sim (cy : CallFn) (cs : Spec.CallFn) (hs : Sim cy cs) (hc : Spec.CtxFree cs) :
-    ∀ (es : List Entry) (self : Frame) (w : World), (∀ e ∈ es, e.ok = true) → self.locked = false →
+    ∀ (es : List Entry) (self : Frame) (w : World), (∀ e ∈ es, e.ok = true) →
       finY (runEntriesY facts cy es self w) = finS (Spec.runDefers cs es self.recovered self.res w) := by
   intro es
   induction es with
   | nil =>
-    intro self w _ _
+    intro self w _
     obtain ⟨sd, sr, sres, sl⟩ := self
     cases sr <;> rfl
   | cons e es ih =>
-    intro self w hok hl
+    intro self w hok
     have hek := hok e (by simp)
     have hes : ∀ x ∈ es, x.ok = true := fun x hx => hok x (by simp [hx])
     obtain ⟨callee, arg⟩ := e
     cases callee with
-    | bin s => simp only [runEntriesY, Spec.runDefers]; exact ih self _ hes hl
-    | del t => simp only [runEntriesY, Spec.runDefers]; exact ih self _ hes hl
-    | bins s ns sp => simp only [runEntriesY, Spec.runDefers]; exact ih self _ hes hl
+    | bin s => simp only [runEntriesY, Spec.runDefers]; exact ih self _ hes
+    | del t => simp only [runEntriesY, Spec.runDefers]; exact ih self _ hes
+    | bins s ns sp => simp only [runEntriesY, Spec.runDefers]; exact ih self _ hes
     | pan v =>
       simp only [runEntriesY, Spec.runDefers, facts_deferredProtected, if_true, raised_facts]
-      exact ih { self with recovered := some v } w hes hl
+      exact ih { self with recovered := some v } w hes
     | src c =>
       have hcd : Dom c = true := by
         simp only [Entry.ok, Bool.and_eq_true] at hek
@@ -267,30 +268,28 @@ theorem entries_sim (cy : CallFn) (cs : Spec.CallFn) (hs : Sim cy cs) (hc : Spec
       cases sig with
       | normal =>
         simp only [liftAnc]
-        exact ih { self with recovered := c', res := res' } w' hes hl
+        exact ih { self with recovered := c', res := res' } w' hes
       | fuel => rfl
       | panic q =>
         simp only [liftAnc]
-        exact ih { self with recovered := some q, res := res' } w' hes hl
+        exact ih { self with recovered := some q, res := res' } w' hes
     | held c =>
       have hcd : Dom c = true ∧ directRecover c = false := by
         simp only [Entry.ok, Bool.and_eq_true, Bool.not_eq_true'] at hek
         exact hek.1
       simp only [runEntriesY, Spec.runDefers, facts_deferredProtected, facts_closureLocksDefiner, if_true,
-        heldAnc_facts, heldBack_facts, Bool.true_and]
+        heldAnc_facts, heldBack_facts, Bool.false_and, Bool.false_eq_true, if_false]
       rw [hs c _ _ w hcd.1, hc c _ self.recovered self.res w hcd.2]
       generalize cs c (arg.get self.res) none self.res w = r
       obtain ⟨sig, c', res', rr, w'⟩ := r
       cases sig with
       | normal =>
-        simp only [liftAnc, Spec.withCtx, hl, Bool.false_eq_true, if_false]
-        have h2 := ih { self with res := res' } w' hes hl
-        simp only [hl] at h2
-        exact h2
+        simp only [liftAnc, Spec.withCtx]
+        exact ih { self with res := res' } w' hes
       | fuel => rfl
       | panic q =>
         simp only [liftAnc, Spec.withCtx]
-        exact ih { self with recovered := some q, res := res' } w' hes hl
+        exact ih { self with recovered := some q, res := res' } w' hes
 
 theorem execFn_sim : ∀ n, Sim (execFnY facts n) (Spec.execFn n) := by
   intro n
@@ -310,7 +309,7 @@ theorem execFn_sim : ∀ n, Sim (execFnY facts n) (Spec.execFn n) := by
     | fuel => rfl
     | normal =>
       have he := entries_sim (execFnY facts n) (Spec.execFn n) ih (Spec.execFn_ctxfree n) act.defers
-        ⟨act.defers, pendingOf .normal, act.res, false⟩ w' hok rfl
+        ⟨act.defers, pendingOf .normal, act.res, false⟩ w' hok
       simp only [finY, finS] at he
       generalize runEntriesY facts (execFnY facts n) act.defers _ w' = ry at he ⊢
       generalize Spec.runDefers (Spec.execFn n) act.defers _ act.res w' = rs at he ⊢
@@ -318,7 +317,7 @@ theorem execFn_sim : ∀ n, Sim (execFnY facts n) (Spec.execFn n) := by
       simp only [liftAnc, he.1, he.2.1, he.2.2]
     | panic v =>
       have he := entries_sim (execFnY facts n) (Spec.execFn n) ih (Spec.execFn_ctxfree n) act.defers
-        ⟨act.defers, pendingOf (.panic v), act.res, false⟩ w' hok rfl
+        ⟨act.defers, pendingOf (.panic v), act.res, false⟩ w' hok
       simp only [finY, finS] at he
       generalize runEntriesY facts (execFnY facts n) act.defers _ w' = ry at he ⊢
       generalize Spec.runDefers (Spec.execFn n) act.defers _ act.res w' = rs at he ⊢
